@@ -236,6 +236,22 @@ def run(ctx: Ctx):
     n_docs = 60 if ctx.tier == 'quick' else 400 // shard_n + 1
     for i in range(n_docs):
         doc_level(ctx, subseed(ctx.seed, 'c18doc', shard_i, i))
+    if shard_i == 0:
+        # environment axis: the same whole documents (every non-kern type and two unknown ones) in child interpreters under other hash
+        # seeds, warnings as errors, an ASCII default encoding, -O and another current directory
+        from .. import envchild
+        texts = []
+        for i in range(4):
+            rng_ = random.Random(subseed(ctx.seed, 'c18env', i))
+            d_ = G.gen_doc(rng_, G.profile('default', types=('**kern', '**text', '**text'), min_spines=3, max_spines=4, hostile_text=0.5,
+                                           measures=(1, 3)))
+            hdr_ = next(ln for ln in d_.lines if ln.kind == 'header')
+            pool = ['**dynam', '**dyn', '**harm', '**mxhm', '**fing', '**foo', '**silbe', '**recip', '**text']
+            for c in hdr_.cells:
+                if c.text == '**text':
+                    c.text = pool[(i * 3 + hdr_.cells.index(c)) % len(pool)]
+            texts.append(d_.text())
+        envchild.run_variants(ctx, texts)
     ctx.extra['consumption_monitor'] = dict(consumption.COUNT)
     ctx.floors = {'tokens': ('import_token_calls', 5000), 'structure': ('shared_structure_cells', 500),
                   'documents': ('doc_variants', 100)}
